@@ -68,6 +68,13 @@ def random_name(rng, used):
         if rng.random() < 0.2:
             n = ''.join(chr(rng.choice([rng.randint(33, 126), 0xe9, 0x4e2d]))
                         for _ in range(rng.randint(1, 8)))
+        if used and rng.random() < 0.12:
+            # differs from a name already taken only in case, in a blank at
+            # either end or in the form of one letter: another light
+            base = rng.choice(sorted(used))
+            n = rng.choice([base.upper(), base.lower(), base.swapcase(),
+                            base + ' ', ' ' + base, base.replace('ss', 'ß'),
+                            base.capitalize()])
         n = n.replace('"', '').strip('\n\r')
         if n and n not in used and '\n' not in n:
             used.add(n)
